@@ -18,6 +18,7 @@ import (
 	"sort"
 	"strconv"
 	"strings"
+	"time"
 
 	"github.com/Fantom-foundation/lachesis-base/utils/simplewlru"
 	"github.com/Fantom-foundation/lachesis-base/utils/wlru"
@@ -69,7 +70,39 @@ func (r *wlruRunner) out(ok bool, vals ...int) string {
 	return fmt.Sprintf("ok=%s v=%s cb=%s", B2s(ok), v, cb)
 }
 
+// lruHung is set when a call did not return: normalize spins forever when its condition stays
+// true on an empty list. The spinning goroutine cannot be stopped, so every later line of the run
+// is answered without touching the code.
+var lruHung = false
+
+// Step runs the calls that end in normalize under a watchdog.
 func (r *wlruRunner) Step(line string) string {
+	if lruHung {
+		return "not-run (an earlier call never returned)"
+	}
+	switch Fields(line)[0] {
+	case "add", "coa", "poa", "resize":
+		done := make(chan string, 1)
+		go func() {
+			defer func() {
+				if p := recover(); p != nil {
+					done <- "panic " + fmt.Sprint(p)
+				}
+			}()
+			done <- r.step(line)
+		}()
+		select {
+		case out := <-done:
+			return out
+		case <-time.After(2 * time.Second):
+			lruHung = true
+			return "hung (the call did not return within 2 s)"
+		}
+	}
+	return r.step(line)
+}
+
+func (r *wlruRunner) step(line string) string {
 	f := Fields(line)
 	r.cb = r.cb[:0]
 	num := func(i int) int { return int(Atou(f[i])) }
